@@ -341,6 +341,7 @@ def make_repo(chk):
     r.create_ebuild("cat/b-1", data="")
     r.create_ebuild("cat/c-1", data="die 'boom at global scope'\n")
     r.create_ebuild("cat/d-1", data="inherit nonexistent\n")
+    r.create_ebuild("cat/x-1", data="exit 1\n")
     r.create_ebuild("cat/e-1", data="inherit baz bar\n")
     r.create_ebuild("cat/t-1", data="kill -TERM ${PKGCORE_EBD_PID:-$PPID}\n")
     r.create_ebuild("cat/i-1", data="kill -INT ${PKGCORE_EBD_PID:-$PPID}\n")
@@ -462,6 +463,12 @@ def real_sessions(chk, P):
     s = session("die")
     try:
         keys(s, "b")
+        v = keys(s, "x")        # the metadata phase fails silently: "phases failed", daemon back in its main loop
+        if v != Err("ProcessorError"):
+            s.oracle.append({"what": "a silently failing metadata phase did not end with ProcessorError", "got": repr(v),
+                             "session": "die"})
+        if s.last != "timeout":
+            s.alive_probe("a failed metadata phase")
         v = keys(s, "c")
         if v != Err("EbdError"):
             s.oracle.append({"what": "die in the daemon did not end the request with EbdError", "got": repr(v)})
@@ -602,7 +609,7 @@ def bash_side(chk, fn_reads, fn_writes, py_writes):
 
 # ----------------------------------------------------------------------------- main
 STRUCTURAL = (b"Ryep!", b"Rpreload_eclass", b"Rphases", b"Rmetadata_path_received", b"Rrequest_inherit",
-              b"Renv_", b"Rclear_preloaded", b"Rreceive_env")
+              b"Renv_", b"Rclear_preloaded")
 
 
 def mutate(trace: bytes, rng):
